@@ -274,7 +274,9 @@ Spec == Init /\ [][Next]_vars
 -----------------------------------------------------------------------------
 Lucky == JVal(Det(gam, Sp)) # 0 /\ JVal(al) # 0 /\ (stage >= 1 => JVal(g4det) # 0)
 (* the oracle is validated against identities it was not written from *)
-OracleSound ==
+(* OracleSoundCore: everything that does not need sqrt(det gamma) or det gamma^(1/3) to be supplied as rationals;  *)
+(* used alone for spacetimes whose determinant is not a perfect sixth power (solution modules, C17)               *)
+OracleSoundCore ==
     (stage = 4 /\ Lucky) =>
         /\ RiemannSymmetries(r4.down, All) /\ RiemannSymmetries(r3.down, Sp)
         /\ InverseIsInverse(g4, g4up, All) /\ MetricCompatible(g4, gam4, All) /\ MetricCompatible(gam, gam3, Sp)
@@ -284,6 +286,7 @@ OracleSound ==
         /\ \A i, j \in Sp : EW(i, j) = EW(j, i) /\ BW(i, j) = BW(j, i)         \* E, B symmetric
         /\ Dot33([ijq \in Sp \X Sp |-> Mu(GU(ijq[1], ijq[2]), EW(ijq[1], ijq[2]))]) = 0        \* and trace-free
         /\ Dot33([ijq \in Sp \X Sp |-> Mu(GU(ijq[1], ijq[2]), BW(ijq[1], ijq[2]))]) = 0
-        /\ Mu(C.sd, C.sd) = JVal(gamdet) /\ Mu(C.cr, Mu(C.cr, C.cr)) = JVal(gamdet)
+RootsGiven == (stage = 4 /\ Lucky) => (Mu(C.sd, C.sd) = JVal(gamdet) /\ Mu(C.cr, Mu(C.cr, C.cr)) = JVal(gamdet))
+OracleSound == OracleSoundCore /\ RootsGiven
 Emit == (stage = 4) => PrintT(ToJson([case |-> cs, P |-> P, lucky |-> Lucky] @@ out))
 =============================================================================
